@@ -125,7 +125,9 @@ class StageRecorder:
                 base = [n for n, v in best.solution.items() for _ in range(v)]
                 have = {tuple(sorted(x.solution.items())) for x in r}
                 r = list(r)
-                for delta, off in rec.inject:
+                for ent in rec.inject:
+                    delta, off = ent[0], ent[1]
+                    swap = len(ent) > 2 and ent[2]
                     lst = list(base)
                     if delta > 0:
                         lst += [default] * delta
@@ -133,10 +135,15 @@ class StageRecorder:
                         lst.remove(default)
                     else:
                         continue
-                    c = CNSolution(gene_, best.score + off, lst)
+                    c = CNSolution(gene_, best.score + (0 if swap else off), lst)
                     if tuple(sorted(c.solution.items())) not in have:
                         have.add(tuple(sorted(c.solution.items())))
                         r.append(c)
+                        if swap:
+                            # the structure stage "prefers" the competing structure by `off`: the structure the evidence really fits
+                            # is now the worse-scored one, so the rescaling by the structure score can reorder the refined candidates
+                            r[r.index(best)] = CNSolution(gene_, best.score + off, list(base))
+                            best = r[-1]
             rec.cn = list(r)
             rec.cn_scores = [float(x.score) for x in r]
             rec.keep += list(r)
@@ -178,6 +185,54 @@ class StageRecorder:
     def __exit__(self, *exc):
         cn, major, minor = self._mods
         cn.estimate_cn, major.estimate_major, minor.estimate_minor, minor.solve_minor_model = self._orig
+        return False
+
+
+# ----------------------------------------------------------------------------------------------------------------------
+class ScoreStubs:
+    """replays the CANDIDATES of a recorded genotype() run with SYNTHETIC scores: estimate_cn, estimate_major and solve_minor_model are
+    replaced by stubs that return copies of the recorded solutions (same structures / alleles / diplotypes) scored by `rng`; the
+    selection logic between the stages (genotype.py, estimate_minor's carry-over) runs for real on them.  Use around a StageRecorder."""
+
+    def __init__(self, rec, rng, cn_scores=(0.0, 0.0, 0.1, 0.35, 0.7, 1.2), raw=(0.0, 0.0, 0.3, 0.5, 0.9, 1.0, 1.4, 2.2)):
+        self.rec, self.rng, self.cn_scores, self.raw = rec, rng, cn_scores, raw
+
+    def __enter__(self):
+        import aldy.cn, aldy.major, aldy.minor
+        from aldy.solutions import CNSolution, MajorSolution, MinorSolution
+        rec, rng = self.rec, self.rng
+        self._mods = (aldy.cn, aldy.major, aldy.minor)
+        self._orig = (aldy.cn.estimate_cn, aldy.major.estimate_major, aldy.minor.solve_minor_model)
+        ckey = lambda c: tuple(sorted(c.solution.items()))
+        mkey = lambda m: (ckey(m.cn_solution), tuple(sorted((sa.major, v) for sa, v in m.solution.items())), tuple(sorted((x.pos, x.op) for x in m.added)))
+        majors_of = {ckey(c): sols for c, sols, raws in rec.major_calls}
+        minors_of = {mkey(m): sols for m, sols, raws in rec.solve_calls}
+
+        def estimate_cn(gene, *a, **k):
+            out = [CNSolution(gene, rng.choice(self.cn_scores), [x for x, v in c.solution.items() for _ in range(v)]) for c in rec.cn]
+            self.keep = list(out)
+            return out
+
+        def estimate_major(gene, coverage, cn_sol, *a, **k):
+            out = [MajorSolution(rng.choice(self.raw), m.solution, cn_sol, list(m.added)) for m in majors_of.get(ckey(cn_sol), [])]
+            self.keep += out
+            return out
+
+        def solve_minor_model(gene, coverage, major_sol, *a, **k):
+            out = []
+            for s_ in minors_of.get(mkey(major_sol), []):
+                n = MinorSolution(rng.choice(self.raw), s_.solution, major_sol)
+                n.set_diplotype(s_.get_diplotype())
+                out.append(n)
+            self.keep += out
+            return out
+
+        aldy.cn.estimate_cn, aldy.major.estimate_major, aldy.minor.solve_minor_model = estimate_cn, estimate_major, solve_minor_model
+        return self
+
+    def __exit__(self, *exc):
+        cn, major, minor = self._mods
+        cn.estimate_cn, major.estimate_major, minor.solve_minor_model = self._orig
         return False
 
 
